@@ -254,7 +254,7 @@ class loud(object):
         if self.on:
             from qstrader import settings
             self._out = sys.stdout
-            self._null = open(os.devnull, 'w')
+            self._null = open(os.devnull, 'w', encoding='ascii')       # a console that only takes ASCII (C locale)
             sys.stdout = self._null
             settings.set_print_events(True)
             # ... and with the application's logging switched on down to DEBUG (records go to a null handler)
